@@ -208,7 +208,15 @@ func (w *World) syncNode(n *Node, tip int) {
 	if len(undo) > 0 {
 		needRebuild := n.cfg.NoUndo
 		if n.cfg.FromRoots > 0 && w.blocks[n.bootAt].Height > w.blocks[undo[len(undo)-1].Parent].Height {
-			needRebuild = true
+			// the reorganisation goes below the block this forest was started from.
+			// Half of the time the node starts over from the roots of the fork point;
+			// otherwise it undoes with the complete block data as everybody else does
+			// (Undo is given the proof and the previous roots for exactly that reason).
+			needRebuild = n.cfg.NoUndo || mix64(w.sc.Seed^uint64(w.stats.Events)*0xb007^uint64(n.idx))%2 == 0
+			if !needRebuild {
+				w.stats.Reach["undo_below_from_roots_start"]++
+				n.bootAt = undo[len(undo)-1].Parent
+			}
 		}
 		if needRebuild {
 			w.stats.Reach["rebuild_instead_of_undo"]++
